@@ -1,7 +1,9 @@
-"""One-off reproduction of the C17 findings F5, F6, F15 on the real halmos classes with REAL child processes.
+"""One-off run of the C17 findings on the real halmos classes with REAL child processes.
+F6 (cancel() before Popen is a no-op) reproduces; F5 (446a9a7, 2f54d38) and F15 (0f4e35b) are repaired: the same
+scenarios now show the repaired behaviour.
 Run: PYTHONPATH=/repo/src /venv/bin/python harness/props/C17_real_repro.py   (not part of bin/check; the check
 replays the same schedules through its forced-schedule tie, see CORPUS in C17.py)."""
-import sys, threading, time, subprocess
+import sys, threading, time
 sys.path.insert(0, "/repo/src")
 import psutil
 import halmos.processes as P
@@ -9,26 +11,31 @@ import halmos.processes as P
 
 def alive(marker):
     out = []
-    for p in psutil.process_iter(["cmdline", "status"]):
-        try:
-            if marker in " ".join(p.info["cmdline"] or []) and p.info["status"] != psutil.STATUS_ZOMBIE:
-                out.append(p.pid)
-        except Exception:
-            pass
+    try:
+        for p in psutil.process_iter(["cmdline", "status"]):
+            try:
+                if marker in " ".join(p.info["cmdline"] or []) and p.info["status"] != psutil.STATUS_ZOMBIE:
+                    out.append(p.pid)
+            except Exception:
+                pass
+    except Exception:
+        pass
     return out
 
 
-# ---- F5: flag test before the lock
+# ---- F5 (repaired): flag test before the lock, shutdown(wait=False) in between
 ex = P.PopenExecutor()
 real_event = ex._shutdown
 passed, go = threading.Event(), threading.Event()
+first = [True]
 
 
 class Ev:
     def is_set(self):
         v = real_event.is_set()
-        if threading.current_thread().name == "submitter":
-            passed.set(); go.wait()          # park the submitter right after its flag test
+        if threading.current_thread().name == "submitter" and first[0]:
+            first[0] = False
+            passed.set(); go.wait()          # park the submitter right after its first flag test
         return v
     def set(self):
         real_event.set()
@@ -36,12 +43,22 @@ class Ev:
 
 ex._shutdown = Ev()
 f = P.PopenFuture(["sh", "-c", "sleep 4 # F5marker"])
-t = threading.Thread(target=lambda: ex.submit(f), name="submitter"); t.start()
+outcome = []
+
+
+def submitter():
+    try:
+        ex.submit(f); outcome.append("accepted")
+    except P.ShutdownError:
+        outcome.append("rejected (ShutdownError)")
+
+
+t = threading.Thread(target=submitter, name="submitter"); t.start()
 passed.wait()
 ex.shutdown(wait=False)                       # request + cancel everything + return
-print("F5: shutdown(wait=False) returned; is_shutdown =", real_event.is_set(), "registered futures =", len(ex.futures))
 go.set(); t.join(); time.sleep(0.3)
-print("F5: after shutdown returned the job was accepted: registered futures =", len(ex.futures), "running children =", alive("F5marker"))
+print("F5 (repaired): submit() whose first flag test preceded shutdown(wait=False):", outcome[0],
+      "; registered futures =", len(ex.futures), "running children =", alive("F5marker"))
 f.cancel()
 
 # ---- F6: cancel() is a no-op before Popen
@@ -66,15 +83,15 @@ print("F6: after shutdown returned the worker spawned its solver: running childr
 P.Popen = real_popen
 f.cancel()
 
-# ---- F15: shutdown(wait=True) re-raises a job's exception and abandons the rest
+# ---- F15 (repaired): shutdown(wait=True) with a job that times out first
 ex = P.PopenExecutor()
 f1 = P.PopenFuture(["sh", "-c", "sleep 5 # F15a"], timeout=0.2)
-f2 = P.PopenFuture(["sh", "-c", "sleep 3 # F15bmarker"])
+f2 = P.PopenFuture(["sh", "-c", "sleep 2 # F15bmarker"])
 ex.submit(f1); ex.submit(f2)
 t0 = time.time()
 try:
     ex.shutdown(wait=True)
-    print("F15: shutdown(wait=True) returned normally")
+    print(f"F15 (repaired): shutdown(wait=True) returned normally after {time.time()-t0:.2f}s; second job done = {f2.done()}, children running = {alive('F15bmarker')}")
 except Exception as e:
     print(f"F15: shutdown(wait=True) raised {type(e).__name__} after {time.time()-t0:.2f}s; second job done = {f2.done()}, its children still running = {alive('F15bmarker')}")
 f2.cancel()
